@@ -18,7 +18,7 @@ from .sigs import PO, PK, VA, KO, VK
 from .sigutil import bparams, show, show_params, src_as_sets, sources_view, ident
 
 ROUTES = ['global', 'closure', 'attr', 'selfmethod', 'param_partial', 'inner_partial', 'wraps',
-          'default_param']
+          'default_param', 'callobj']
 CONTEXTS = ['expr', 'assign', 'return', 'if', 'ifelse', 'try', 'tryfinally', 'with', 'for', 'while',
             'listcomp', 'genexp', 'dictcomp', 'nested', 'lambda', 'argof', 'starof', 'dstarof', 'ternary',
             'nested_decorated', 'fstring', 'await_free_walrus',
@@ -310,6 +310,8 @@ def callee_ref(route, ci):
         return 'func'
     if route == 'inner_partial':
         return 'callee%d' % ci
+    if route == 'callobj':
+        return 'callee%d' % ci
     if route == 'wraps':
         return 'fn'
     if route == 'default_param':
@@ -411,6 +413,14 @@ def assemble(route, po, calls, body, decorate=False, modifier=None):
             src += '    def callee%d(%s): return None\n' % (i, 'self' + (', ' + r if r else ''))
         src += '    def outer(%s):\n%s\nobj = C()\ntarget = obj.outer\nraw_outer = C.outer\n' % (selfo, ind(body, 2))
         src += 'callee_objs = [%s]\n' % ', '.join('obj.callee%d' % i for i in range(n))
+    elif route == 'callobj':
+        # the wrapper is a callable *instance*: its __call__ forwards.  The class itself is no wrapper at all
+        # (calling it runs the constructor, where nothing is forwarded)
+        selfo = 'self' + (', ' + ostr if ostr else '')
+        init = ['', '    def __init__(self, q_=1, *rest_, **more_): pass\n', '    def __init__(self): pass\n'][len(body) % 3]
+        src += defs + 'class W(object):\n    label = 1\n' + init
+        src += '    def __call__(%s):\n%s\nwobj = W()\ntarget = wobj\nraw_outer = W.__call__\nclass_target = W\n' % (selfo, ind(body, 2))
+        src += 'callee_objs = [%s]\n' % ', '.join('callee%d' % i for i in range(n))
     elif route == 'param_partial':
         fo = 'func' + (', ' + ostr if ostr else '')
         src += defs + 'def outer(%s):\n%s\ntarget = functools.partial(outer, callee0)\nraw_outer = outer\n' % (fo, ind(body))
@@ -548,7 +558,7 @@ def expected_for(meta, g, osig, combo):
         except ValueError:
             results.append(('merge-raises', 'plain'))
             continue
-        if route == 'selfmethod':
+        if route in ('selfmethod', 'callobj'):
             try:
                 m = signatures.mask(m, 1)
             except ValueError:
@@ -718,6 +728,20 @@ def check_program(ctx, case_seed, want=('C05', 'C06', 'C07'), force=None, varian
                               dict(w, discovered=show(S), discovered_sources=sources_view(S),
                                    declared=[(tag, show(a) if not isinstance(a, str) else 'plain: ' + show(plain)) for tag, a in alts][:4],
                                    declared_sources=[sources_view(a) for tag, a in alts if not isinstance(a, str)][:2]), rp)
+        if 'class_target' in g:
+            # the class of a callable instance: constructing it forwards nothing, whatever its __call__ does
+            ctx.count('C06.class_of_callable_instance_compared')
+            K = g['class_target']
+            try:
+                kS, kP = sigtools.signature(K), signatures.signature(K)
+            except Exception as e:
+                ctx.violation('C06', 'AutoBoundary', 'class-of-callable-instance-raises-%s' % type(e).__name__,
+                              'retrieval raised on the class of a callable instance', dict(w, exception=repr(e)), rp)
+            else:
+                if sig_key(kS) != sig_key(kP):
+                    ctx.violation('C06', 'AutoBoundary', 'class-reported-with-signature-of-its-instances-call',
+                                  'a class whose instances are callable is reported with something else than its plain (constructor) signature',
+                                  dict(w, on_class=show(kS), on_class_sources=sources_view(kS), plain=show(kP)), rp)
         # metamorphic variants
         rnd = random.Random(case_seed ^ 0x5bd1e995)
         for v in range(variants):
@@ -742,6 +766,11 @@ def check_program(ctx, case_seed, want=('C05', 'C06', 'C07'), force=None, varian
                               dict(w, variant=vsrc.split('def passthrough(f):\n    return f\n', 1)[1],
                                    base=show(S), varied=show(vS), base_sources=sources_view(S), varied_sources=sources_view(vS)),
                               dict(rp, variant=v))
+
+    # ---------------- C07: the three retrievals + narrowing of the own parameter list (plain functions / methods)
+    if 'C07' in want:
+        from . import w_corpus
+        w_corpus.check_callable(ctx, 'generated-program-%d' % case_seed, 'function', target, sphinx=False, rp=rp)
 
     # ---------------- C05: taint clause + soundness by execution
     if 'C05' in want:
